@@ -6,6 +6,7 @@ position formulas, bucket selection, chain-walk conditions; cursor discipline of
 """
 import ast
 import re
+from sa.canon import U
 from sa.world import get_world
 from sa import elfconf, layout, expr, paths, streams, dispatch, literals, registry, hrules
 from sa.report import AnalysisError
@@ -178,9 +179,9 @@ def check_name_map(ctx, w):
         ok = False
         why = 'no loop over enumerate(self.iter_symbols())'
         for lp in loops:
-            if ast.unparse(lp.iter) == 'enumerate(self.iter_symbols())' and isinstance(lp.target, ast.Tuple):
+            if U(lp.iter) == 'enumerate(self.iter_symbols())' and isinstance(lp.target, ast.Tuple):
                 i, s = [e.id for e in lp.target.elts]
-                body = [ast.unparse(st) for st in lp.body]
+                body = [U(st) for st in lp.body]
                 ok = body == ['self._symbol_name_map[%s.name].append(%s)' % (s, i)]
                 why = 'body %r' % body
         ctx.ob('W-MAP', f.construct, 'map[name].append(enumeration index)', ok, msg='symbol-name map not built from the enumeration: ' + why)
@@ -206,7 +207,7 @@ def check_hash(ctx, w):
         f = w.model.func(HASH, q)
         env = expr.FEnv(f.node, params=('header', 'name', 'elffile', 'symboltable'))
         calls = [c for c in ast.walk(f.node) if isinstance(c, ast.Call) and isinstance(c.func, ast.Attribute) and
-                 c.func.attr == '__init__' and 'HashTable' in ast.unparse(c.func)]
+                 c.func.attr == '__init__' and 'HashTable' in U(c.func)]
         got = [expr.nfs(a, env) for a in calls[0].args] if calls else None
         ctx.ob('E-i', f.construct, 'table starts at sh_offset, symbols from the linked table', got == ['self', 'elffile', 'sh_offset', 'symboltable'],
                got=got, msg='hash section does not start its table at sh_offset')
@@ -227,7 +228,7 @@ def check_hash(ctx, w):
     # SysV walk
     f = w.model.func(HASH, 'ELFHashTable.get_symbol')
     env = expr.FEnv(f.node, params=('name',), inline=False)
-    asgs = [(ast.unparse(st.targets[0]), expr.nfs(st.value, env)) for st in ast.walk(f.node) if isinstance(st, ast.Assign)]
+    asgs = [(U(st.targets[0]), expr.nfs(st.value, env)) for st in ast.walk(f.node) if isinstance(st, ast.Assign)]
     ad = {}
     for k, v in asgs:
         ad.setdefault(k, []).append(v)
@@ -248,7 +249,7 @@ def check_hash(ctx, w):
     ad = {}
     for st in ast.walk(f.node):
         if isinstance(st, ast.Assign):
-            ad.setdefault(ast.unparse(st.targets[0]), []).append(expr.nfs(st.value, env))
+            ad.setdefault(U(st.targets[0]), []).append(expr.nfs(st.value, env))
     ctx.ob('E-i', f.construct, 'bucket = hash % nbuckets', ad.get('symidx') == [expr.spec_nf('buckets[namehash % nbuckets]').replace('index(buckets', 'index(buckets')],
            got=ad.get('symidx'), msg='GNU bucket index is not hash mod nbuckets')
     tests = [expr.cond_str(n.test, env) for n in ast.walk(f.node) if isinstance(n, ast.If)]
@@ -262,7 +263,7 @@ def check_hash(ctx, w):
     want = ('seek', 'stream', expr.spec_nf('_chain_pos + (symidx - symoffset) * _wordsize'), 'SEEK_SET')
     ctx.ob('E-i', f.construct, 'chain word position', want in seeks, got=seeks, expected=want,
            msg='chain word of symbol symidx is not at _chain_pos + (symidx - symoffset) * word size')
-    aug = [ast.unparse(n) for n in ast.walk(f.node) if isinstance(n, ast.AugAssign)]
+    aug = [U(n) for n in ast.walk(f.node) if isinstance(n, ast.AugAssign)]
     ctx.ob('E-i', f.construct, 'symidx advances by 1', aug == ['symidx += 1'], got=aug)
     # count recovery
     f = w.model.func(HASH, 'GNUHashTable.get_number_of_symbols')
@@ -270,7 +271,7 @@ def check_hash(ctx, w):
     ad = {}
     for st in ast.walk(f.node):
         if isinstance(st, ast.Assign):
-            ad.setdefault(ast.unparse(st.targets[0]), []).append(expr.nfs(st.value, env))
+            ad.setdefault(U(st.targets[0]), []).append(expr.nfs(st.value, env))
     ctx.ob('E-i', f.construct, 'max bucket', ad.get('max_idx') == ['max(buckets)'], got=ad.get('max_idx'))
     ctx.ob('E-i', f.construct, 'chain position of max bucket', ad.get('max_chain_pos') == [expr.spec_nf('_chain_pos + (max_idx - symoffset) * _wordsize')],
            got=ad.get('max_chain_pos'))
